@@ -141,6 +141,18 @@ def impl_single(case):
     m.x = call(**conns)
     pdk = pdk_module(case["pdk"])
     out = {}
+    # what the process compiled before (other modules, other requests): no business of this request's (seed C15-r8-2)
+    for k, bspec in enumerate(case.get("before", [])):
+        try:
+            bc = mk_params(bspec["prim"], bspec)
+            mb = h.Module(name=f"Before{k}")
+            bconns = {}
+            for p in bc.prim.port_list:
+                bconns[p.name] = mb.add(h.Signal(), name="s_" + p.name)
+            mb.x = bc(**bconns)
+            pdk.compile(mb)
+        except Exception:  # noqa
+            pass
     try:
         if case.get("via") == "hpdk_module":
             h.pdk.compile(m, pdk=sys.modules[pdk.__name__ + (".pdk" if case["pdk"] in ("sample", "asap7") else ".pdk_logic")])
@@ -197,6 +209,13 @@ def tables_cases(rng, tables, quick):
         for tp, fam, vth in itertools.product(["NMOS", "PMOS"], ["NONE", "CORE", "IO", "LP", "HP", "RF"], ["STD", "LOW", "HIGH", "ULTRA_LOW", "ZERO", "NATIVE"]):
             w, l = rng.choice(sizes)
             cases.append({"pdk": pdk, "spec": {"prim": "Mos", "model": None, "tp": tp, "vth": vth, "fam": fam, "w": w, "l": l, "nf": None, "mult": None}})
+            # … the same request after every device carrying this triple was asked for by its model name with the same sizes
+            rows = [e for e in t["xtors"] if (e["tp"], e["fam"], e["vth"]) == (tp, fam, vth)]
+            if len(rows) > 1:
+                for (w, l) in (sizes[:2] if not quick else [sizes[0]]):
+                    cases.append({"pdk": pdk, "spec": {"prim": "Mos", "model": None, "tp": tp, "vth": vth, "fam": fam, "w": w, "l": l, "nf": None, "mult": None},
+                                  "before": [{"prim": "Mos", "model": e["key"], "tp": e["tp"], "vth": e["vth"], "fam": e["fam"], "w": w, "l": l, "nf": None, "mult": None}
+                                             for e in reversed(rows)]})
         for table, prims in (("ress", ["PhysicalResistor", "ThreeTerminalResistor"]), ("caps", ["PhysicalCapacitor", "ThreeTerminalCapacitor"]),
                              ("diodes", ["Diode"]), ("bjts", ["Bipolar"])):
             for e in t[table]:
@@ -891,6 +910,59 @@ def judge_literal_sizes(case, im):
                                    f"the whole expression scaled as a single name is scaled ({float(k):.6g}x) would be {float(want):.6g}"})
 
 
+def repair_cases(tables):
+    out = []
+    for pdk in ("sky130", "gf180"):
+        keys = [e["key"] for e in tables[pdk]["xtors"]]
+        out.append({"pdk": pdk, "good": [keys[0], keys[1 % len(keys)], keys[-1]], "bad_at": 1})
+        out.append({"pdk": pdk, "good": [keys[-1], keys[0], keys[2 % len(keys)]], "bad_at": 0})
+    return out
+
+
+def impl_repair(case):
+    """A compile that fails half-way through a module (a model name no device has), the instance mended in place, the same modules compiled
+    again: every mapped primitive is replaced, as in the twin that never failed (seed C15-r8-1: modules remembered as walked)."""
+    import hdl21.primitives as hp
+
+    pdk = pdk_module(case["pdk"])
+
+    def build(tag, models):
+        leaf = h.Module(name=f"RLeaf{tag}")
+        leaf.d, leaf.g, leaf.s, leaf.b = h.Port(), h.Port(), h.Port(), h.Port()
+        for k, mdl in enumerate(models):
+            leaf.add(hp.Mos(model=mdl)(d=leaf.d, g=leaf.g, s=leaf.s, b=leaf.b), name=f"m{k + 1}")
+        top = h.Module(name=f"RTop{tag}")
+        top.d, top.g, top.s, top.b = h.Signals(4)
+        top.l1 = leaf(d=top.d, g=top.g, s=top.s, b=top.b)
+        top.l2 = leaf(d=top.d, g=top.g, s=top.s, b=top.b)
+        top.m = hp.Mos(model=case["good"][-1])(d=top.d, g=top.g, s=top.s, b=top.b)
+        return top, leaf
+
+    def snap(top, leaf):
+        return {f"leaf.{n}": describe_call(i.of) for n, i in leaf.instances.items()} | {"top.m": describe_call(top.m.of)}
+
+    good = case["good"]
+    try:
+        twin, tleaf = build("T", good)
+        pdk.compile(twin)
+        want = snap(twin, tleaf)
+        models = list(good)
+        models[case["bad_at"]] = "NO_SUCH_MODEL"
+        top, leaf = build("R", models)
+        try:
+            pdk.compile(top)
+            return {"error": "the compile with an unknown model name was expected to fail"}
+        except RuntimeError:
+            pass
+        bad = leaf.instances[f"m{case['bad_at'] + 1}"]
+        bad.of = hp.Mos(model=good[case["bad_at"]])
+        pdk.compile(top)
+        got = snap(top, leaf)
+    except Exception as ex:  # noqa
+        return {"error": common.errstr(ex)}
+    return {"want": want, "got": got}
+
+
 def load_tables():
     p = subprocess.run([sys.executable, os.path.join(os.path.dirname(os.path.dirname(os.path.abspath(__file__))), "dump_pdk_tables.py")], capture_output=True, text=True, timeout=300)
     return json.loads(p.stdout.strip().splitlines()[-1])
@@ -975,6 +1047,17 @@ def run(ctx):
                              {"why": "a request compiled among other requests gives another device call than the same request compiled alone",
                               "request": dj["of"]["py"]["spec"], "alone": ref["of"], "among": ia["t"]["desc"]})
                     break
+    # ---- a failed compile, mended and run again
+    rcs = repair_cases(tables)
+    stats["repair"] = {"cases": len(rcs)}
+    for c, im in zip(rcs, common.pmap(impl_repair, rcs, chunk=1)):
+        rep.count("repair", json.dumps(c), nontrivial="got" in im)
+        if "error" in im:
+            rep.fail("corr", {"stream": "repair", "case": c}, {"detail": im["error"]})
+        elif im["got"] != im["want"]:
+            left = sorted(k for k, v in im["got"].items() if v != im["want"][k])
+            rep.fail("pred", {"stream": "repair", "case": c}, {"why": "after a failed compile was mended and run again, these instances are not what the never-failed twin has",
+                                                               "instances": left, "got": {k: im["got"][k] for k in left[:3]}})
     # ---- registry
     rc = registry_corpus() + registry_cases(rng, 24 if ctx.quick else 300)
     ri = common.pmap(run_registry, rc, chunk=1)
